@@ -58,6 +58,17 @@ def abortsAtOnce (r : Request) : Bool :=
      | some (.int d) => d == 0
      | _ => true)
 
+/-- the greeting `org.example.up.Start(greeting, lf_back)` makes the upgraded service write first -/
+def upGreeting (r : Request) : List UInt8 :=
+  match r.parameters.bind (·.get? "greeting") with
+  | some (.int n) =>
+    let n := n.toNat
+    let lf := match r.parameters.bind (·.get? "lf_back") with
+      | some (.int k) => k.toNat
+      | _ => 0
+    (List.range n).map fun i => if 0 < lf ∧ lf ≤ n ∧ i = n - lf then (10 : UInt8) else (103 : UInt8)
+  | _ => []
+
 /-- the byte transformation of the upgraded echo service -/
 def upTransform (b : UInt8) : UInt8 := b + 1
 
@@ -129,6 +140,9 @@ def scriptNamesOf : Sx → List String
   | _ => []
 
 def parseWorld : Sx → Option WorldSpec
+  | .list [.atom "world", svcSx, r, up, .atom "seq"] =>
+    -- a single-threaded server: same replies, one connection at a time (not visible in the model)
+    parseWorld (.list [.atom "world", svcSx, r, up])
   | .list [.atom "world", svcSx, r, up] => do
     let svc ← parseSvc svcSx
     let r ← parseResolver r
